@@ -5,6 +5,7 @@ model of `generic_modes`, observers; and the same through the table specificatio
 import SkaModel.Impl.Modes
 import SkaModel.Spec.Table
 import SkaModel.Spec.Windows
+import SkaModel.DriverBase
 
 namespace SkaModel.Driver
 
